@@ -98,6 +98,17 @@ def mangle(cls_name: str, attr: str) -> str:
 _PARSE_CACHE: Dict[Tuple[str, int, int], "Module"] = {}
 
 
+def _alpha_normalise(tree: ast.AST, rel: str, src: Optional[str] = None) -> None:
+    """Undo consistent renames of local variables (sa/alpha.py); VERIF_NO_ALPHA=1 switches it off."""
+    if os.environ.get("VERIF_NO_ALPHA") == "1":
+        return
+    from . import alpha
+    try:
+        alpha.normalise(tree, rel, src)
+    except Exception:  # normalisation is an aid, never a reason to fail
+        pass
+
+
 class Repo:
     def __init__(self, root: Optional[str] = None, overrides: Optional[Dict[str, str]] = None):
         """`overrides` (rel path -> source text) replaces files in memory: used by the
@@ -112,6 +123,7 @@ class Repo:
                 if rel in overrides:
                     src = overrides[rel]
                     tree = ast.parse(src, filename=rel)
+                    _alpha_normalise(tree, rel, src)
                     self.modules[rel] = Module(rel, path, src, tree)
                 else:
                     # unchanged files are parsed once per process (variants of the tree differ in one or two files);
@@ -123,6 +135,7 @@ class Repo:
                         with open(path, "r", encoding="utf-8") as fh:
                             src = fh.read()
                         tree = ast.parse(src, filename=rel)
+                        _alpha_normalise(tree, rel, src)
                         cached = Module(rel, path, src, tree)
                         _PARSE_CACHE[key] = cached
                     self.modules[rel] = cached
